@@ -79,8 +79,9 @@ def finish(src, name, meta):
     old = {}
     if (dst / "meta.json").exists():
         old = json.loads((dst / "meta.json").read_text())
-        if "needs" in old:
-            meta["needs"] = old["needs"]
+        for k in ("needs", "first_result", "breaks_property"):
+            if k in old:
+                meta[k] = old[k]
         # keep earlier detection records of other tiers
         for c, v in old.get("detected_by", {}).items():
             meta.setdefault("history", []).append({c: v})
